@@ -247,3 +247,14 @@ def run(cx):
     _run_xor(cx)
     # C2 = M xor K: the byte-wise XOR helper pairs equal indices over the whole length
     _I.xor_rule(cx, 'I-XOR', 'gm_sm2::util::xor_bytes', 'a', 'b', ('len($a)', 'len($b)'))
+
+
+_run_lxor = run
+
+
+def run(cx):
+    _run_lxor(cx)
+    # a ciphertext cut down to C1 || C3 (empty C2) must be rejected with an error, not reach the XOR helper's length
+    # assertion: every caller of xor_bytes passes kdf(_, len(a)) with len(a) >= 1 established before the call
+    from .C20 import xor_callers
+    xor_callers(cx)
